@@ -6,6 +6,7 @@ payload behaviour is interpreted from it, so (scenario, tape) determines the run
 import asyncio
 import gc
 import logging
+import sys
 import threading
 import time
 
@@ -520,11 +521,16 @@ class Harness:
         except cancel_type as c:
             self.ev("cancelled", pid, exc=type(c).__name__)
             raise
+        except GeneratorExit:
+            # the coroutine is being finalised (dropped by whoever held it, then collected):
+            # it neither finished nor was it cancelled through its framework
+            self.ev("destroyed", pid)
+            raise
         finally:
             for _ in range(spec.get("cleanup_sync", 0)):
                 self.ev("cleanup-step", pid)
             length = spec.get("cleanup_async", 0)
-            if length and fl == "trio":
+            if length and fl == "trio" and sys.exc_info()[0] is not GeneratorExit:
                 with trio.CancelScope(shield=True):
                     await checkpoint(trio.sleep(length))
                     self.ev("cleanup-async-done", pid)
